@@ -385,7 +385,7 @@ fn history(sink: &mut Sink, r: &mut Rng, which: Which, scratch: &str, bin: &str,
                     }
                     // `new` never drops an existing entry of the file it rewrites — also when that file is
                     // the default baseline and was not named with --baseline (then it is not even loaded)
-                    if mode == "new" && !step.given {
+                    if mode == "new" && !step.given && which == Which::C09 {
                         if let Some(bm) = &before {
                             if bm.keys().any(|k| !am.contains_key(k)) {
                                 pred = Some("key=update-new-without-baseline-flag --update-baseline=new without --baseline overwrote the default baseline file and dropped existing entries".to_string());
